@@ -473,3 +473,22 @@ func EncodeQuery(id, flags uint16, name []byte, qt uint16) string {
 		return "ok " + core.Hex(packet.EncodeDNSQuery(id, flags, Exact(name), qt))
 	})
 }
+
+// SSDPFull is SSDP with the name of the returned error ("err <name>" | "ok" | panic | hang | …+blocked).
+func SSDPFull(payload []byte) (kind string, secs int64, name packet.NameEntry, loc string) {
+	setup()
+	h := dn.VerifNew(Session)
+	before := time.Now()
+	kind = GuardProbe("ssdp", h, func() string {
+		n, l, err := h.ProcessSSDP(nil, nil, Exact(payload))
+		name, loc = n, l
+		if err != nil {
+			return "err " + ErrName(err)
+		}
+		return "ok"
+	})
+	if kind == "ok" && !name.Expire.IsZero() {
+		secs = int64(name.Expire.Sub(before).Round(time.Second) / time.Second)
+	}
+	return
+}
